@@ -167,8 +167,9 @@ Definition lex_remark (ln : Z) (line : text) (loose : bool) : (lexitem * list di
   let '(num, e1) := f_usize ln line 7 10 in
   let e2 := if in_Z_list REMARK_TYPES num then [] else [mkd DLoose "Remark type number invalid" ln] in
   if Nat.ltb 11 (List.length line) then
-    if (Nat.leb 80 (List.length (trim_end line)) && negb loose)%bool then inr (mkd DGeneral "Remark too long" ln)
-    else inl (LRemark num (trim_end (skipn 11 line)), (e1 ++ e2)%list)
+    (* more than 80 columns: a warning below the loose level; the remark and the other diagnostics of the line stay *)
+    let e3 := if (Nat.ltb 80 (List.length (trim_end line)) && negb loose)%bool then [mkd DGeneral "Remark too long" ln] else [] in
+    inl (LRemark num (trim_end (skipn 11 line)), (e1 ++ e2 ++ e3)%list)
   else inl (LRemark num [], (e1 ++ e2)%list).
 Definition lex_header (ln : Z) (line : text) : (lexitem * list diag) + diag :=
   if Nat.ltb (List.length line) 66 then inr (mkd DLoose "Header too short" ln)
